@@ -1,6 +1,6 @@
 (* C10 — Gaussian sampler: inverse-CDF structure.  Statements only (GaussDecode.v, GaussExec.v, GaussTail.v). *)
 From Coq Require Import ZArith List Reals.
-From NTT Require Import GaussDecode GaussExec GaussTail.
+From NTT Require Import GaussDecode GaussExec GaussTail GaussCert.
 Local Open Scope Z_scope.
 
 (* depth 1: first-word table + full comparison in flagged cells = vmin + number of barriers <= the input string *)
@@ -21,3 +21,15 @@ Theorem C10_monotone : forall vmin barriers s t, length s = length t -> (forall 
   decode_spec vmin barriers s <= decode_spec vmin barriers t.
 Proof. exact decode_spec_monotone. Qed.
 Print Assumptions C10_monotone.
+
+(* statistical distance: for a table distribution supported on the window, the total variation to D_{Z,sigma,c}
+   (normaliser = window sum + the two infinite tails) is bounded by a FINITE expression in which the tail mass ranges over
+   [0, geometric tail bound]; a generated file (gen/GaussCert_*.v) proves that finite inequality with Interval for the
+   barrier table dumped from the real sampler on this run *)
+Theorem C10_tv_reduction : forall a c : R, (0 < a)%R -> forall (vmin : Z) (qs : list R),
+  (0 <= c - IZR (vmin - 1))%R -> (0 <= IZR (vmin + Z.of_nat (length qs)) - c)%R -> forall eps : R,
+  (forall T : R, (0 <= T <= GaussCert.tb a (c - IZR (vmin - 1)) + GaussCert.tb a (IZR (vmin + Z.of_nat (length qs)) - c))%R ->
+     (/ 2 * (GaussCert.wsum 0 qs (fun i q => Rabs (q - GaussCert.rhoZ a c (vmin + Z.of_nat i) / (GaussCert.W a c vmin qs + T))) + T / (GaussCert.W a c vmin qs + T)) <= eps)%R) ->
+  (GaussCert.TV a c vmin qs <= eps)%R.
+Proof. exact GaussCert.TV_le_of_cert. Qed.
+Print Assumptions C10_tv_reduction.
